@@ -32,7 +32,7 @@ def _explore(task):
     """Runs in a forked worker: explore one configuration of one harness."""
     hname, cfg, tier, seed, limits, prefix, split_at = task
     t0 = time.time()
-    out = dict(cfg=cfg, subtrees=[], paths=0, aborted=0, decisions=0, queries=0, obligations=0, discharged=0,
+    out = dict(cfg=cfg, subtrees=[], gaps=[], paths=0, aborted=0, decisions=0, queries=0, obligations=0, discharged=0,
                solver_time=0.0, retries=0, violations=[], inconclusive=[], witnesses=[], reach=0,
                internal_assumptions=[], error=None, wall=0.0)
     try:
@@ -57,7 +57,17 @@ def _explore(task):
             sys.modules['numpy'].PI_PROVIDER = None
             sc = C.SymCtx(E)
             state['ctx'] = sc
-            h.run(sc, cfg)
+            try:
+                h.run(sc, cfg)
+            except symx.ModelGap as g:
+                # the model does not cover what the code did on this path: hand the path witness to the
+                # real side (a failure there is a genuine, replayed violation); the run is otherwise
+                # inconclusive, never a pass
+                out['gaps'].append(dict(msg=str(g)[:300], values={k2: C.enc(v) for k2, v in E.witness().items()}))
+                if len(out['gaps']) >= 4:
+                    E.inconclusive.append('model gap: %s' % str(g)[:200])
+                    raise symx.Inconclusive('model gap')
+                raise symx.PathAbort()
 
         def on_end(E_):
             sc = state['ctx']
@@ -298,6 +308,19 @@ def _finish(pid, hname, h, tier, seed, results, real, t0, limits):
                 continue     # replay at most 6 counterexamples per (normalised) label
             vreqs.append(dict(harness=hname, cfg=r['cfg'], values=v['values'], want_obs=True))
             vmeta.append((r['cfg'], v))
+    # model-gap witnesses are run on the real code as well: a failure there is a genuine violation
+    n_gaps = 0
+    for r in results:
+        for g in r.get('gaps', []):
+            n_gaps += 1
+            if n_gaps > 24:
+                break
+            rr0 = real.map([dict(harness=hname, cfg=r['cfg'], values=g['values'], want_obs=False)])[0]
+            if rr0['failed'] and not rr0['error'] and not rr0['assume_violated']:
+                vreqs.append(dict(harness=hname, cfg=r['cfg'], values=g['values'], want_obs=True))
+                vmeta.append((r['cfg'], dict(label=rr0['failed'][0], values=g['values'], detail='found through a model-gap witness: ' + g['msg'])))
+            else:
+                inconcl.append('model gap (real run of the path witness passes): %s [cfg=%s]' % (g['msg'], json.dumps(r['cfg'], sort_keys=True)))
     vres = real.map(vreqs) if vreqs else []
     n_viol, n_known, not_repro = 0, 0, []
     seen_known, seen_viol = set(), set()
@@ -395,7 +418,7 @@ def _finish(pid, hname, h, tier, seed, results, real, t0, limits):
             cpu_s=round(sum(r['wall'] for r in results), 1),
             witnesses_sampled=len(wreqs), witnesses_skipped_rounding=wit_skipped,
             counterexamples=n_cex_total, counterexamples_replayed=len(vreqs), counterexamples_reproduced=n_viol + n_known,
-            known_findings=n_known, not_reproduced=len(not_repro),
+            known_findings=n_known, not_reproduced=len(not_repro), model_gap_paths=n_gaps,
             inconclusive=sorted(set(inconcl)), harness_errors=len(errors) + len(wit_bad),
             functions_encoded=getattr(h, 'FUNCTIONS', []), source_sha256_16=hashes,
             bounds=getattr(h, 'BOUNDS', {}).get(tier, ''), outside_bounds=getattr(h, 'OUTSIDE', ''),
@@ -410,6 +433,14 @@ def _finish(pid, hname, h, tier, seed, results, real, t0, limits):
     os.makedirs(os.path.join(ROOT, 'evidence'), exist_ok=True)
     json.dump(ev, open(os.path.join(ROOT, 'evidence', pid + '.json'), 'w'), indent=1, default=str)
 
+    if os.environ.get('VCHECK_STATS'):
+        agg = {}
+        for r in results:
+            k = json.dumps(r['cfg'], sort_keys=True)
+            a = agg.setdefault(k, [0, 0, 0.0])
+            a[0] += r['paths']; a[1] += r['reach']; a[2] += r['wall']
+        for k, a in sorted(agg.items(), key=lambda kv: -kv[1][2])[:25]:
+            print("STATS paths=%d reach=%d cpu=%.1fs %s" % (a[0], a[1], a[2], k))
     for m in messages:
         print(m)
     print("%s tier=%s status=%d configs=%d paths=%d reach=%d obligations=%d discharged=%d queries=%d "
